@@ -270,8 +270,20 @@ INT_MODELS += [
     (r"^core::num::<impl u8>::is_ascii_whitespace$", m_is_ascii_ws),
     (r"^(core::num::<impl [iu](8|16|32|64|128|size)>::(min|max|wrapping_add|wrapping_sub|checked_sub|checked_add|saturating_sub|saturating_add)|<[iu](8|16|32|64|128|size) as Ord>::(min|max)|(std|core)::cmp::(min|max)::<[iu](8|16|32|64|128|size)>)$", m_int_ops),
 ]
+def m_int_default(ex, st, callee, args, dty, site):
+    from .sym import INT_TYPES
+    m = re.match(r"^<(bool|[iu](?:8|16|32|64|128|size)) as Default>::default$", callee)
+    if not m:
+        return NotImplemented
+    if m.group(1) == "bool":
+        return z3.BoolVal(False)
+    return z3.BitVecVal(0, INT_TYPES[m.group(1)][0])
+
+
 MODEL_DOC[INT_MODELS[-1][0]] = "integer min/max/wrapping/checked/saturating add & sub: their std definitions as bit-vector terms"
 MODEL_DOC[INT_MODELS[-2][0]] = "u8::is_ascii_whitespace: byte in {0x20,0x09,0x0A,0x0C,0x0D}"
+INT_MODELS += [(r"^<(bool|[iu](8|16|32|64|128|size)) as Default>::default$", m_int_default)]
+MODEL_DOC[INT_MODELS[-1][0]] = "<int as Default>::default() is 0, <bool as Default>::default() is false"
 
 
 def m_mem_replace(ex, st, callee, args, dty, site):
